@@ -5,12 +5,15 @@ import (
 	"fmt"
 	"strings"
 
+	"github.com/xjslang/xjs/ast"
 	"github.com/xjslang/xjs/debug"
 	"github.com/xjslang/xjs/lexer"
+	"github.com/xjslang/xjs/parser"
 	"github.com/xjslang/xjs/token"
 
 	"xmc/core"
 	"xmc/gen"
+	"xmc/ref"
 )
 
 // C11: parsing is total and obeys the error contract. Universe: ALL token sequences <= n over the
@@ -90,8 +93,109 @@ func c11Violation(idx []int, sep string, mi int, cfgs []Cfg) core.Violation {
 	return core.Violation{Kind: k, Config: Modes[mi].String(), Case: fmt.Sprintf("%q", src), Detail: d, Payload: pl, Size: len(sh)}
 }
 
+// c11Plugin: the error contract with errors that a PLUGIN reports through the public AddError /
+// AddErrorAtToken (a statement interceptor that rejects the identifier `bad`, an expression interceptor that
+// rejects the number 13): err is returned iff the error list is non-empty, the list contains exactly one
+// plugin error per rejection with the range of the rejected token, the parser goes on and the tree is intact.
+func c11PluginOne(src string, mi int) (kind, detail string) {
+	{
+		pb := newPB(Modes[mi])
+		var rejected [][4]int
+		pb.UseStatementInterceptor(func(p *parser.Parser, next func() ast.Statement) ast.Statement {
+			if t := p.CurrentToken; t.Type == token.IDENT && t.Literal == "bad" {
+				p.AddErrorAtToken("plugin: bad statement", t)
+				rejected = append(rejected, [4]int{t.Start.Line, t.Start.Column, t.End.Line, t.End.Column})
+			}
+			return next()
+		})
+		pb.UseExpressionInterceptor(func(p *parser.Parser, next func() ast.Expression) ast.Expression {
+			if t := p.CurrentToken; t.Type == token.INT && t.Literal == "13" {
+				p.AddErrorAtToken("plugin: unlucky number", t)
+				rejected = append(rejected, [4]int{t.Start.Line, t.Start.Column, t.End.Line, t.End.Column})
+			}
+			return next()
+		})
+		o := parseWith(pb, src)
+		if o.Panic != "" {
+			return "parse-panic", o.Panic
+		}
+		if (o.Err != nil) != (len(o.Errs) > 0) {
+			return "error-contract", fmt.Sprintf("err=%v but len(Errors())=%d", o.Err, len(o.Errs))
+		}
+		var got [][4]int
+		for _, e := range o.Errs {
+			if strings.HasPrefix(e.Message, "plugin: ") {
+				got = append(got, [4]int{e.Range.Start.Line, e.Range.Start.Column, e.Range.End.Line, e.Range.End.Column})
+			}
+		}
+		if fmt.Sprint(got) != fmt.Sprint(rejected) {
+			return "plugin-errors", fmt.Sprintf("the plugin reported errors at %v (in this order); Errors() lists plugin errors at %v", rejected, got)
+		}
+		if len(rejected) > 0 && o.Err == nil {
+			return "plugin-error-lost", "the plugin reported an error, ParseProgram returned no error"
+		}
+		if k, d := treeNilCheck(o.Prog, false); k != "" {
+			return k, d
+		}
+		// the same input without the plugin's rejections: same tree, and the library's own errors are the rest
+		plain := parseMode(src, Modes[mi])
+		if plain.Panic == "" {
+			if dumpTree(plain.Prog) != dumpTree(o.Prog) {
+				return "plugin-error-changes-tree", fmt.Sprintf("tree with the reporting plugin %s, without %s", ref.XStmts(o.Prog.Statements), ref.XStmts(plain.Prog.Statements))
+			}
+			if len(o.Errs)-len(got) != len(plain.Errs) {
+				return "plugin-error-changes-errors", fmt.Sprintf("%d library errors with the reporting plugin, %d without", len(o.Errs)-len(got), len(plain.Errs))
+			}
+		}
+		return "", ""
+	}
+}
+
+func c11Plugin(c *core.Ctx) {
+	check := c11PluginOne
+	alpha := append(append([]string{}, gen.T...), "bad", "13")
+	n := 3
+	if c.Thorough() {
+		n = 4
+	}
+	for L := 1; L <= n; L++ {
+		gen.EachSeq(len(alpha), L, func(idx []int) bool {
+			if !c.Next() {
+				return true
+			}
+			if c.Tick() {
+				return false
+			}
+			has := false
+			for _, x := range idx {
+				if x >= len(gen.T) {
+					has = true
+				}
+			}
+			if !has {
+				return true
+			}
+			for _, sep := range []string{" ", "\n"} {
+				src := gen.Join(alpha, idx, sep)
+				c.Cur(src)
+				c.Inc("inputs")
+				c.Inc("plugin_error_inputs")
+				for mi := range Modes {
+					c.Inc("parses")
+					if k, d := check(src, mi); k != "" && c.ShrinkOK("plug"+k) {
+						pl, _ := json.Marshal(c11Payload{src, mi + 100})
+						c.Violate(core.Violation{Kind: k, Config: Modes[mi].String() + ", error-reporting plugin", Case: fmt.Sprintf("%q", src), Detail: d, Payload: pl, Size: L})
+					}
+				}
+			}
+			return true
+		})
+	}
+}
+
 func c11Run(c *core.Ctx) {
 	processWarmup(c)
+	c11Plugin(c)
 	n := 4
 	if c.Thorough() {
 		n = 5
@@ -413,6 +517,14 @@ func c11Run(c *core.Ctx) {
 func c11Replay(pl json.RawMessage) (string, []core.Violation) {
 	var p c11Payload
 	json.Unmarshal(pl, &p)
+	if p.Mode >= 100 {
+		k, d := c11PluginOne(p.Src, p.Mode-100)
+		out := fmt.Sprintf("source %q mode %s, error-reporting plugin", p.Src, Modes[p.Mode-100])
+		if k != "" {
+			return out, []core.Violation{{Kind: k, Config: Modes[p.Mode-100].String() + ", error-reporting plugin", Case: fmt.Sprintf("%q", p.Src), Detail: d}}
+		}
+		return out, nil
+	}
 	k, d, free := c11Check(p.Src, p.Mode, Cfgs(true, true))
 	out := fmt.Sprintf("source %q mode %s error-free=%v", p.Src, Modes[p.Mode], free)
 	if k != "" {
@@ -424,7 +536,7 @@ func c11Replay(pl json.RawMessage) (string, []core.Violation) {
 func init() {
 	core.Register(&core.PropSpec{
 		ID: "C11", Level: "exploration",
-		Rule:     "ALL token sequences of length 0..n (n=4 quick, 5 thorough) over the 45-lexeme alphabet (identifiers, literals, every keyword, operator and delimiter), valid or not, space-separated (and line-feed-separated up to n-1; at n=5 in the modes strict and tolerant+smart only), plus all byte strings <=4 over the 26-byte lexer alphabet; each parsed in the 4 mode combinations; oracle: no panic, err<=>Errors(), no nil/typed-nil entry in any statement list (reflective walk), every error range equals the range of a token of a fresh lexer run, and for error-free results all mandatory children present and every compiler configuration + debug.ToString run without panic. non-trivial = input accepted without error in at least one mode (reaches tree + compiler checks) — rejected inputs are counted separately Added: all sequences <= 3 (4 thorough) over a second 20-lexeme alphabet with range-edge numeric literals and a long escape; the scale family intact and truncated at 3 points; programs being typed: every token prefix and every single-token deletion of every program of the statement families and nesting chains, and every prefix of those programs with all / each single semicolon dropped (the inputs tolerant mode exists for), and every single-token substitution by each of 22 class lexemes, in two layouts and all modes; all sequences of length 5..6 (7 thorough) over a 13-lexeme statement-keyword class alphabet in the modes strict and tolerant+smart.",
+		Rule:     "ALL token sequences of length 0..n (n=4 quick, 5 thorough) over the 45-lexeme alphabet (identifiers, literals, every keyword, operator and delimiter), valid or not, space-separated (and line-feed-separated up to n-1; at n=5 in the modes strict and tolerant+smart only), plus all byte strings <=4 over the 26-byte lexer alphabet; each parsed in the 4 mode combinations; oracle: no panic, err<=>Errors(), no nil/typed-nil entry in any statement list (reflective walk), every error range equals the range of a token of a fresh lexer run, and for error-free results all mandatory children present and every compiler configuration + debug.ToString run without panic. non-trivial = input accepted without error in at least one mode (reaches tree + compiler checks) — rejected inputs are counted separately Added: all sequences <= 3 (4 thorough) over a second 20-lexeme alphabet with range-edge numeric literals and a long escape; the scale family intact and truncated at 3 points; programs being typed: every token prefix and every single-token deletion of every program of the statement families and nesting chains, and every prefix of those programs with all / each single semicolon dropped (the inputs tolerant mode exists for), and every single-token substitution by each of 22 class lexemes, in two layouts and all modes; all sequences of length 5..6 (7 thorough) over a 13-lexeme statement-keyword class alphabet in the modes strict and tolerant+smart; error-reporting plugin: all token sequences <= 3 (4 thorough) that contain `bad` or 13, with interceptors that report them through AddErrorAtToken: err iff errors, one plugin error per rejection with the token's range, same tree and same library errors as without the plugin.",
 		Assume:   []string{"stack exhaustion on very deep nesting is out of scope (bounded length)"},
 		QuickSec: 300, ThorSec: 2400, Run: c11Run, Replay: c11Replay,
 		Evals: "inputs", Nontriv: "error_free_inputs",
